@@ -52,6 +52,10 @@ var (
 func installYield() {
 	yieldOnce.Do(func() {
 		manager.SetVerifYield(func(ctx context.Context, point int, rt xdsresource.ResourceType, name string) {
+			if point == 7 {
+				flowYield() // a producer about to hand its request to the channel (flow.go)
+				return
+			}
 			if point >= 5 {
 				recvYield(point) // receiver goroutine between the sections of a response handler (sysrun.go)
 				return
